@@ -43,7 +43,7 @@ theorem run_stop {cfg : Cfg} {t : List Byte} {n : Nat} (hN : NulAt t n) (L : Nat
       simp only [Bool.and_eq_true, bne_iff_ne, ne_eq, Bool.not_eq_true'] at hc
       obtain ⟨_, _, _, _, _, _, _, hld⟩ := hs v s (Rem.un rfl) rfl
       have htk : Tk t n s := ⟨⟨hl, hld hc.2⟩, hc.1.1⟩
-      obtain ⟨b1, b2⟩ := Ld.byte htk.1
+      obtain ⟨b1, b2⟩ := Ld_d0.byte htk.1
       refine ⟨hl.pos_le, (fun h => by rcases h with h | h <;> cases h), fun _ => ?_, (fun h => by rcases h with h | h <;> cases h)⟩
       exact Or.inl ⟨b1, Tk.pos_le hN htk, _, b2, hc.1.1⟩
     · exact ⟨hl.pos_le, (fun h => by rcases h with h | h <;> cases h), (fun h => by cases h),
@@ -55,11 +55,11 @@ theorem run_stop {cfg : Cfg} {t : List Byte} {n : Nat} (hN : NulAt t n) (L : Nat
     have hp : s.l.pos = n + 1 := hg
     exact ⟨Nat.le_of_eq hp, fun _ => hp, (fun h => by cases h), (fun h => by rcases h with h | h <;> cases h)⟩
   · -- invalid
-    have hi : Ld t n s ∧ (s.l.cur = 0 → Dang cfg t n) := hg
+    have hi : Ld_d0 t n s ∧ (s.l.cur = 0 → Dang cfg t n) := hg
     refine ⟨hi.1.1.pos_le, (fun h => by rcases h with h | h <;> cases h), fun _ => ?_, (fun h => by rcases h with h | h <;> cases h)⟩
     by_cases hz : s.l.cur = 0
-    · exact Or.inr ⟨Ld.pos_zero hN hi.1 hz, hi.2 hz⟩
-    · obtain ⟨b1, b2⟩ := Ld.byte hi.1
+    · exact Or.inr ⟨Ld_d0.pos_zero hN hi.1 hz, hi.2 hz⟩
+    · obtain ⟨b1, b2⟩ := Ld_d0.byte hi.1
       exact Or.inl ⟨b1, Tk.pos_le hN ⟨hi.1, hz⟩, _, b2, hz⟩
   · -- noMemory
     have hm : Lv t n s ∧ s.l.loaded = false := hg
